@@ -114,6 +114,43 @@ def one(task):
         for nt, a in T.automata.items():
             if a["k"] > T.max_k:
                 r["structure"].append("%s: automaton k=%d exceeds the generated MAX_K=%d" % (nt, a["k"], T.max_k))
+    if task.get("scanner_vocab") and task.get("source_grammar"):
+        # C18: terminal identity through the GENERATED SCANNER: table indices are interpreted by the
+        # regex the scanner block assigns to them, source terminals by their expanded pattern
+        from checks.c34 import expand
+        gs = read_par(task["source_grammar"])
+        ids, issues = {}, []
+        for k in gs.term_order:
+            ids.setdefault(expand(k), len(ids) + 1)
+        used = set(x[1] for _, rhs in T.prods for x in rhs if x[0] == "T")
+        for a in T.automata.values():
+            used |= set(t[1] for t in a["trans"] if t[1] != 0)
+        tmap = {}
+        for idx in sorted(used):
+            info = T.term_keys.get(idx)
+            if info is None:
+                issues.append("terminal index %d is used by the tables but no scanner mode produces it" % idx)
+                continue
+            tmap[idx] = ids.setdefault((info["pattern"], info["lookahead"]), len(ids) + 1)
+        for idx, info in T.term_keys.items():
+            if (info["pattern"], info["lookahead"]) not in ids:
+                issues.append("scanner terminal %d (%r) corresponds to no terminal of the grammar" % (idx, info["pattern"]))
+        if len(getattr(T, "terminal_names", [])) and max(list(T.term_keys) + [4]) + 2 != len(T.terminal_names):
+            issues.append("TERMINAL_NAMES has %d entries but the scanner's highest user terminal is %d" % (len(T.terminal_names), max(list(T.term_keys) + [4])))
+        r["identity_issues"] = issues
+        if not issues:
+            prods = [(l, [("T", ("#", tmap[x[1]])) if x[0] == "T" else x for x in rhs]) for l, rhs in T.prods]
+            src = [(l, [("T", ("#", ids[expand(x[1])])) if x[0] == "T" else x for x in rhs]) for l, rhs in gs.bnf]
+            vocab = {("#", i): i for i in ids.values()}
+            st, wit, dt = P.lang_diff(src, gs.start, prods, T.start, vocab, task["N"], timeout_ms=task.get("timeout_ms", 300000))
+            inv = {v: k for k, v in ids.items()}
+            r["language"] = {"status": st, "solver_s": round(dt, 2)}
+            if st == "sat":
+                ina = C.derives_brute(src, gs.start, vocab, wit) if wit else (gs.start in C.NormalForm(src).nullable)
+                inb = C.derives_brute(prods, T.start, vocab, wit) if wit else (T.start in C.NormalForm(prods).nullable)
+                r["language"].update(witness=wit, witness_text=[inv[t][0] for t in wit], in_source=ina, in_tables=inb, confirmed=(ina != inb))
+            elif st != "unsat":
+                r["language"]["reason"] = str(wit)
     if task.get("align_e"):
         iss, tmap = align_terminals(T, task["align_e"])
         r["alignment_issues"] = iss
